@@ -628,7 +628,9 @@ func c14closeWait(env *Env, out *sync.Mutex, rng *Rng, more int) {
 		extra = " " + reasons[0]
 	}
 	if inWrite {
+		out.Lock()
 		env.Count("closewait: refresher held inside Write")
+		out.Unlock()
 	}
 	c14emit(env, out, "udp", "closewait", 1+more, a, p, panics.Load(), extra)
 }
